@@ -510,7 +510,7 @@ Section Par2Faults.
     - injection H as _ <-. apply nf_refl.
     - destruct (io_read p st) as [[b|e|q] st1] eqn:ER; try discriminate H.
       pose proof (io_read_ok_nf _ _ _ _ ER) as N1.
-      destruct (read_file md5 (Some (d_setid d)) b) as [| |sid f].
+      destruct (read_file_vol md5 (d_setid d) b) as [| |sid f].
       + discriminate H.
       + eapply nf_trans; [exact N1|eapply IH; exact H].
       + lazymatch type of H with (if ?c then _ else _) = _ => destruct c end; [discriminate H|].
@@ -756,11 +756,11 @@ Section Par2Faults.
   Proof.
     induction fuel as [|fuel IH]; intros buf setid found f sid f' Hf H; cbn [read_file_go] in H; [discriminate H|].
     destruct (read_next_packet md5 buf) as [| |psid ptype body rest].
-    - destruct (negb found); [discriminate H|].
-      destruct (pf_client f) as [cl|]; [|discriminate H].
-      destruct setid as [sid0|]; [|discriminate H].
-      injection H as _ <-. exact Hf.
-    - discriminate H.
+    - apply rf_finish_ok in H. rewrite H. exact Hf.
+    - (* damaged packet: skipped *)
+      destruct (find_magic (tl buf)) as [rest|].
+      + eapply IH; [exact Hf|exact H].
+      + apply rf_finish_ok in H. rewrite H. exact Hf.
     - lazymatch type of H with (if ?c then _ else _) = _ => destruct c end.
       { eapply IH; [exact Hf|exact H]. }
       destruct Hf as [Hm Hd].
@@ -840,7 +840,7 @@ Section Par2Faults.
     induction paths as [|p r IH]; intros acc st acc' st' Hacc H; cbn [load_parity] in H.
     - injection H as <- _. exact Hacc.
     - destruct (io_read p st) as [[b|e|q] st1]; try discriminate H.
-      destruct (read_file md5 (Some (d_setid d)) b) as [| |sid f].
+      destruct (read_file_vol md5 (d_setid d) b) as [| |sid f].
       + discriminate H.
       + eapply IH; [exact Hacc|exact H].
       + lazymatch type of H with (if ?c then _ else _) = _ => destruct c end; [discriminate H|].
